@@ -24,6 +24,7 @@ outside the interpreted subset raises Undecided (-> inconclusive, never a
 refutation).
 """
 import ast
+from fractions import Fraction
 
 
 class Undecided(Exception):
@@ -55,8 +56,9 @@ class _Continue(Exception):
 class Arr:
   """1-D integer numpy array, element-wise arithmetic"""
 
-  def __init__(self, xs):
+  def __init__(self, xs, mask=False):
     self.xs = list(xs)
+    self.is_mask = mask     # boolean array (result of a comparison)
 
   def __len__(self):
     return len(self.xs)
@@ -128,6 +130,10 @@ class World:
 
 def _is_int(v):
   return isinstance(v, int) and not isinstance(v, bool)
+
+
+def _is_num(v):
+  return isinstance(v, (int, Fraction)) and not isinstance(v, bool)
 
 
 class Interp:
@@ -279,6 +285,19 @@ class Interp:
     if isinstance(t, ast.Subscript):
       base = self.ev(t.value)
       idx = self.ev_index(t.slice)
+      if isinstance(base, Arr) and isinstance(idx, Arr) and \
+              len(idx) == len(base) and all(x in (0, 1) for x in idx.xs) \
+              and getattr(idx, 'is_mask', False):
+        if isinstance(v, Arr):
+          if len(v) != sum(idx.xs):
+            raise Raised(['ValueError'], node)
+          vals = list(v.xs)
+        else:
+          vals = [v] * sum(idx.xs)
+        for k_, m_ in enumerate(idx.xs):
+          if m_:
+            base.xs[k_] = vals.pop(0)
+        return
       if isinstance(base, (list, Arr)) and _is_int(idx):
         xs = base if isinstance(base, list) else base.xs
         if not -len(xs) <= idx < len(xs):
@@ -330,7 +349,7 @@ class Interp:
     return self.ev(e)
 
   def binop(self, op, a, b, node):
-    if _is_int(a) and _is_int(b):
+    if _is_num(a) and _is_num(b):
       try:
         if isinstance(op, ast.Add):
           return a + b
@@ -342,9 +361,13 @@ class Interp:
           return a // b
         if isinstance(op, ast.Mod):
           return a % b
+        if isinstance(op, ast.Div):
+          return Fraction(a) / b
+        if isinstance(op, ast.Pow) and _is_int(b) and b >= 0:
+          return a ** b
       except ZeroDivisionError:
         raise Raised(['ZeroDivisionError'], node)
-      raise Undecided('integer operator %s' % type(op).__name__)
+      raise Undecided('operator %s' % type(op).__name__)
     if isinstance(a, Arr) or isinstance(b, Arr):
       if isinstance(a, Arr) and isinstance(b, Arr):
         if len(a) != len(b):
@@ -355,9 +378,9 @@ class Interp:
           else:
             raise Raised(['ValueError'], node)
         return Arr(self.binop(op, x, y, node) for x, y in zip(a.xs, b.xs))
-      if isinstance(a, Arr) and _is_int(b):
+      if isinstance(a, Arr) and _is_num(b):
         return Arr(self.binop(op, x, b, node) for x in a.xs)
-      if _is_int(a) and isinstance(b, Arr):
+      if _is_num(a) and isinstance(b, Arr):
         return Arr(self.binop(op, a, y, node) for y in b.xs)
     if isinstance(a, str) and isinstance(op, ast.Mod):
       return '<message>'
@@ -369,7 +392,8 @@ class Interp:
     if isinstance(a, tuple) and isinstance(b, tuple) and \
             isinstance(op, ast.Add):
       return a + b
-    if isinstance(a, list) and _is_int(b) and isinstance(op, ast.Mult):
+    if isinstance(a, (list, tuple)) and _is_int(b) and \
+            isinstance(op, ast.Mult):
       return a * b
     r = self.world.binop(self, op, a, b, node)
     if r is NotImplemented:
@@ -395,12 +419,18 @@ class Interp:
       return r if isinstance(op, ast.In) else not r
     if isinstance(a, Arr) or isinstance(b, Arr):
       if isinstance(a, Arr) and isinstance(b, Arr) and len(a) == len(b):
-        return Arr(int(self.compare1(op, x, y, node))
-                   for x, y in zip(a.xs, b.xs))
-      if isinstance(a, Arr) and _is_int(b):
-        return Arr(int(self.compare1(op, x, b, node)) for x in a.xs)
-      if _is_int(a) and isinstance(b, Arr):
-        return Arr(int(self.compare1(op, a, y, node)) for y in b.xs)
+        return Arr((int(self.compare1(op, x, y, node))
+                    for x, y in zip(a.xs, b.xs)), mask=True)
+      if isinstance(a, Arr) and _is_num(b):
+        return Arr((int(self.compare1(op, x, b, node)) for x in a.xs),
+                   mask=True)
+      if _is_num(a) and isinstance(b, Arr):
+        return Arr((int(self.compare1(op, a, y, node)) for y in b.xs),
+                   mask=True)
+    if _is_num(a) and _is_num(b):
+      return {ast.Lt: a < b, ast.LtE: a <= b, ast.Gt: a > b,
+              ast.GtE: a >= b, ast.Eq: a == b,
+              ast.NotEq: a != b}[type(op)]
     if isinstance(a, plain) and isinstance(b, plain):
       if isinstance(op, ast.Eq):
         return a == b
@@ -418,6 +448,8 @@ class Interp:
   def ev(self, e):
     self.tick()
     if isinstance(e, ast.Constant):
+      if isinstance(e.value, float):
+        return Fraction(e.value)
       return e.value
     if isinstance(e, ast.Name):
       if e.id in self.env:
@@ -438,8 +470,11 @@ class Interp:
       v = self.ev(e.operand)
       if isinstance(e.op, ast.Not):
         return not self.truth(v, e)
-      if isinstance(e.op, ast.USub) and _is_int(v):
+      if isinstance(e.op, ast.USub) and _is_num(v):
         return -v
+      if isinstance(e.op, ast.Invert) and isinstance(v, Arr) and \
+              all(x in (0, 1) for x in v.xs):
+        return Arr((1 - x for x in v.xs), mask=True)
       if isinstance(e.op, ast.USub) and isinstance(v, Arr):
         return Arr(-x for x in v.xs)
       r = self.world.unary(self, e.op, v, e)
@@ -560,6 +595,10 @@ class Interp:
               x is None or _is_int(x)
               for x in (idx.start, idx.stop, idx.step)):
         return Arr(base.xs[idx])
+      if isinstance(idx, Arr) and len(idx) == len(base) and \
+              all(x in (0, 1) for x in idx.xs) and \
+              getattr(idx, 'is_mask', False):
+        return Arr(x for x, m in zip(base.xs, idx.xs) if m)
     r = self.world.subscript(self, base, idx, node)
     if r is NotImplemented:
       raise Undecided('subscript %s' % ast.unparse(node)[:60])
@@ -598,6 +637,9 @@ class Interp:
       r = self.libcall(d, args, kwargs, e)
       if r is not NotImplemented:
         return r
+      g = self.repo.func_by_dotted(d)
+      if g is not None and g.cls is None:
+        return self.invoke(g, args, kwargs, e)
       raise Undecided('call of %s' % d)
     if isinstance(f, ast.Attribute):
       recv = self.ev(f.value)
@@ -607,12 +649,56 @@ class Interp:
       r = self.method(recv, f.attr, args, kwargs, e)
       if r is not NotImplemented:
         return r
+      if isinstance(f.value, ast.Name) and f.value.id == 'self' and \
+              self.func.cls is not None:
+        g = self.repo.resolve_method(self.func.cls, f.attr)
+        if g is not None:
+          return self.invoke(g, [recv] + args, kwargs, e)
       raise Undecided('method %s of %r' % (f.attr, recv))
     if isinstance(f, ast.Name) and f.id in self.env:
       r = self.world.call(self, '()', self.env[f.id], args, kwargs, e)
       if r is not NotImplemented:
         return r
     raise Undecided('call %s' % ast.unparse(f)[:50])
+
+  def invoke(self, g, args, kwargs, node):
+    """interpret a function of the repository with the same world"""
+    depth = getattr(self, 'depth', 0)
+    if depth >= 4:
+      raise Undecided('call depth')
+    a = g.node.args
+    if a.vararg or a.kwarg or a.posonlyargs:
+      raise Undecided('signature of %s' % g.key)
+    names = [x.arg for x in a.args]
+    if len(args) > len(names):
+      raise Raised(['TypeError'], node)
+    env = dict(zip(names, args))
+    for k, v in kwargs.items():
+      if k in env or (k not in names and
+                      k not in [x.arg for x in a.kwonlyargs]):
+        raise Raised(['TypeError'], node)
+      env[k] = v
+    defaults = a.defaults
+    for nm, dv in zip(names[len(names) - len(defaults):], defaults):
+      if nm not in env:
+        env[nm] = self.ev(dv)
+    for x, dv in zip(a.kwonlyargs, a.kw_defaults):
+      if x.arg not in env:
+        if dv is None:
+          raise Raised(['TypeError'], node)
+        env[x.arg] = self.ev(dv)
+    if any(nm not in env for nm in names):
+      raise Raised(['TypeError'], node)
+    sub = Interp(self.repo, g, self.world, ())
+    sub.depth = depth + 1
+    sub.fuel = self.fuel
+    sub.choices = self.choices
+    sub.taken = self.taken          # one choice sequence for the whole run
+    out = sub.run(env)
+    self.fuel = sub.fuel
+    if out[0] == 'raise':
+      raise Raised(out[1], out[2])
+    return out[1]
 
   def builtin(self, name, args, kwargs, node):
     if name == 'len' and len(args) == 1:
@@ -630,7 +716,7 @@ class Interp:
       return [tuple(t) for t in zip(*[self.iterate(a, node) for a in args])]
     if name in ('min', 'max'):
       vals = args if len(args) > 1 else self.iterate(args[0], node)
-      if all(_is_int(v) for v in vals) and vals:
+      if all(_is_num(v) for v in vals) and vals:
         return min(vals) if name == 'min' else max(vals)
       raise Undecided('%s of %r' % (name, vals))
     if name == 'sum' and len(args) == 1:
@@ -644,8 +730,10 @@ class Interp:
       if isinstance(args[0], Arr) and len(args[0]) == 1:
         return args[0].xs[0]
       raise Undecided('int of %r' % (args[0],))
-    if name == 'abs' and len(args) == 1 and _is_int(args[0]):
+    if name == 'abs' and len(args) == 1 and _is_num(args[0]):
       return abs(args[0])
+    if name == 'abs' and len(args) == 1 and isinstance(args[0], Arr):
+      return Arr(abs(x) for x in args[0].xs)
     if name == 'list' and len(args) <= 1:
       return list(self.iterate(args[0], node)) if args else []
     if name == 'tuple' and len(args) <= 1:
@@ -681,9 +769,52 @@ class Interp:
     def vec(v):
       if isinstance(v, Arr):
         return v.xs
-      if isinstance(v, (list, tuple)) and all(_is_int(x) for x in v):
+      if isinstance(v, (list, tuple)) and all(_is_num(x) for x in v):
         return list(v)
       return None
+    if short in ('abs', 'absolute', 'fabs') and len(args) == 1:
+      if _is_num(args[0]):
+        return abs(args[0])
+      if vec(args[0]) is not None:
+        return Arr(abs(x) for x in vec(args[0]))
+    if short in ('amax', 'max', 'amin', 'min') and len(args) == 1 and \
+            vec(args[0]):
+      return (max if short in ('amax', 'max') else min)(vec(args[0]))
+    if short in ('divide', 'true_divide') and len(args) == 2:
+      where = kwargs.get('where')
+      out = kwargs.get('out')
+      a, b = args
+      n = len(b) if isinstance(b, Arr) else (len(a) if isinstance(a, Arr)
+                                             else None)
+      if n is not None and (where is None or isinstance(where, Arr)):
+        av = a.xs if isinstance(a, Arr) else [a] * n
+        bv = b.xs if isinstance(b, Arr) else [b] * n
+        wv = where.xs if where is not None else [1] * n
+        if where is not None and not isinstance(out, Arr):
+          raise Undecided('np.divide(where=...) without out: '
+                          'uninitialised entries')
+        res = []
+        for k_ in range(n):
+          if wv[k_]:
+            if bv[k_] == 0:
+              raise Undecided('division by zero')
+            res.append(Fraction(av[k_]) / bv[k_])
+          else:
+            res.append(out.xs[k_])
+        if isinstance(out, Arr):
+          out.xs[:] = res
+          return out
+        return Arr(res)
+    if short in ('any', 'all') and len(args) == 1 and vec(args[0]) is not None:
+      return (any if short == 'any' else all)(bool(x) for x in vec(args[0]))
+    if short in ('logical_not',) and len(args) == 1 and \
+            isinstance(args[0], Arr):
+      return Arr((int(not x) for x in args[0].xs), mask=True)
+    if short == 'where' and len(args) == 3 and isinstance(args[0], Arr):
+      n = len(args[0])
+      av = args[1].xs if isinstance(args[1], Arr) else [args[1]] * n
+      bv = args[2].xs if isinstance(args[2], Arr) else [args[2]] * n
+      return Arr(av[k_] if args[0].xs[k_] else bv[k_] for k_ in range(n))
     if short in ('full_like',) and len(args) == 2 and _is_int(args[1]):
       n = len(args[0]) if isinstance(args[0], (Arr, list, tuple)) else None
       if n is not None:
